@@ -140,6 +140,20 @@ CLAIMED["C17"] = dict(
          "refused is left open by the property: both answers are accepted there.",
     technique="TLA+ resolution function over an exhaustively enumerated small module scope; cases replayed on both back ends",
 )
+CLAIMED["C12"] = dict(
+    category="model_checking",
+    text="Heap.tla is the lifecycle of the VM's reference-counted objects (heap objects and closures, identified by versioned slot "
+         "keys). The hooks record every alloc / retain / release of heap objects and alloc / drop of closures; HeapTrace.tla "
+         "accepts a run only if every event is enabled in the model (no retain or release of an object that is not live, counts "
+         "as reported, no slot allocated while live), if the growth of the VM's own count of heap objects per sample is the "
+         "model's, and if the numbers of live closures / heap objects after sample 20 and after sample 40 are equal (also for the "
+         "WASM host's stores). Corpora: every LangGen program of the budget that creates closures while dsp runs, shipped sources.",
+    design_ref="DESIGN.md §6 C12",
+    note="On the pinned tree the VM keeps every closure created while dsp runs: boundedness on the VM is therefore not asked of the "
+         "generated closure programs (one pinned instance per construct) and the leaking shipped fixtures are pinned by file. "
+         "Objects created by the global initialisers are unknown to the model (events on them are not judged).",
+    technique="TLA+ lifecycle model; trace validation of hook-recorded alloc/retain/release events and per-sample live counts",
+)
 NOT_YET = {}
 
 checks = []
